@@ -704,6 +704,13 @@ func (c *CEnv) evalCall(e *Expr) Val {
 			if isString(v.typ) {
 				return v
 			}
+			if sl, ok := v.typ.Underlying().(*types.Slice); ok && v.seq == nil {
+				if b, ok := sl.Elem().Underlying().(*types.Basic); ok && b.Kind() == types.Uint8 {
+					H := s.region(c.heap, elemRegion(sl.Elem()), s.elemSort(sl.Elem()))
+					f := s.uf("str.ofbytes", []string{"(Array Int Int)", "Int", "Int"}, "String")
+					return Val{t: fmt.Sprintf("(%s (select %s (s.base %s)) (s.off %s) (s.len %s))", f, H, v.t, v.t, v.t), typ: tString}
+				}
+			}
 		case "matches":
 			pat := c.literalString(args[0])
 			re, err := regexToSMT(pat)
@@ -727,6 +734,19 @@ func (c *CEnv) evalCall(e *Expr) Val {
 				return Val{t: fmt.Sprintf("(%s %s)", probe.parts[0].t, a.t), typ: probe.parts[0].typ}
 			}
 			return Val{t: fmt.Sprintf("(%s %s)", probe.parts[1].t, a.t), typ: tInt}
+		case "hasext", "extof":
+			// hasext(pkg.E_X, m): extension E_X is set on message m;  extof(pkg.E_X, m): its value (typed pointer)
+			info := c.extVar(args[0])
+			m := c.eval(args[1])
+			ref := m.t
+			if _, isI := m.typ.Underlying().(*types.Interface); isI {
+				ref = fmt.Sprintf("(i.val %s)", m.t)
+			}
+			G := s.region(c.heap, extRegion(info), s.cellSort(info.Value))
+			if fnE.S == "hasext" {
+				return Val{t: fmt.Sprintf("(distinct (select %s %s) 0)", G, ref), typ: tBool}
+			}
+			return Val{t: fmt.Sprintf("(select %s %s)", G, ref), typ: info.Value}
 		case "disjoint":
 			// two slices do not share a backing store (or one of them is nil)
 			a, b := c.eval(args[0]), c.eval(args[1])
@@ -1009,4 +1029,24 @@ func (c *CEnv) literalString(e *Expr) string {
 	}
 	efail("expected a string literal or initconst(X)")
 	return ""
+}
+
+// extVar resolves an expression naming a generated extension variable (pkg.E_X or E_X).
+func (c *CEnv) extVar(e *Expr) *extInfo {
+	var obj types.Object
+	switch {
+	case e.Op == "sel" && e.Args[0].Op == "id":
+		if p := c.importedPkg(e.Args[0].S); p != nil {
+			obj = p.Scope().Lookup(e.S)
+		}
+	case e.Op == "id" && c.pkg != nil:
+		obj = c.pkg.Scope().Lookup(e.S)
+	}
+	if v, ok := obj.(*types.Var); ok {
+		if info := c.s.eng.exts[v]; info != nil {
+			return info
+		}
+	}
+	efail("%s is not a generated extension variable", e)
+	return nil
 }
